@@ -85,7 +85,8 @@ def oracle(run: runner.Run, oc: Outcome) -> None:
         # a. no progress records remain
         recs = st.records(obj)
         ctimeout = float(common.spec_of(run, opid)['settings'].get('consistency_timeout', 5.0))
-        blind = any(e[2] == 'fault-echo' and e[4] == name and e[7] - e[6] >= ctimeout * 0.9 for e in run.sim.trace)
+        blind = any(e[2] == 'fault-echo' and e[4] == name and e[7] - e[6] >= ctimeout * 0.9 for e in run.sim.trace) \
+            or any(n_ == name for (n_, _, _) in common.late_echoes(run, ctimeout * 0.9))
         if recs and blind:
             oc.probes['probe.records-left-after-blind-steps'] = oc.probes.get('probe.records-left-after-blind-steps', 0) + 1
         elif recs:
